@@ -1,10 +1,10 @@
 SPECIFICATION Spec
 CONSTANTS
-  NRot = 3
-  K = 1
+  NRot = 5
+  K = 2
   M = 0
   Variant = "as_coded"
-  Direct = FALSE
+  Direct = TRUE
   GenHist = FALSE
 INVARIANT C07_LimitsAtShutdown
 INVARIANT C07_NotRemovedEarly
